@@ -34,6 +34,7 @@ type Engine struct {
 	loadErrs    []string
 	aliases     map[string]map[string]string // package path -> import alias -> import path
 	genNotes    []string
+	eff         *effectInfo
 }
 
 func loadEngine(repo, buildDir string, patterns []string) (*Engine, error) {
@@ -121,6 +122,7 @@ func loadEngine(repo, buildDir string, patterns []string) (*Engine, error) {
 		}
 	}
 	e.scanGlobals()
+	e.computeEffects()
 	return e, nil
 }
 
